@@ -26,6 +26,12 @@ func main() {
 	if len(os.Args) < 2 {
 		usage()
 	}
+	// the repository needs go >= 1.26.5; the default go on PATH is older
+	os.Setenv("PATH", "/opt/veriftools/go1.26.8/bin:"+os.Getenv("PATH"))
+	os.Setenv("GOTOOLCHAIN", "local")
+	os.Setenv("GOFLAGS", "-mod=mod")
+	os.Setenv("GOPROXY", "off")
+	os.Setenv("GOSUMDB", "off")
 	cmd := os.Args[1]
 	fs := flag.NewFlagSet(cmd, flag.ExitOnError)
 	repo := fs.String("repo", "/repo", "repository root")
